@@ -71,6 +71,16 @@ func (r *recPayloader) Payload(mtu uint16, payload []byte) [][]byte {
 
 func c06Payload(kind string, n, salt int) []byte {
 	b := pat(n, salt)
+	switch salt % 7 { // payload texture: the packetizer must carry any bytes
+	case 4:
+		for i := range b {
+			b[i] = 0xFF
+		}
+	case 5:
+		for i := range b {
+			b[i] = byte(salt)
+		}
+	}
 	if kind == "h264" && n > 0 {
 		b[0] = 0x65 // one IDR slice NAL (no start code inside: the pattern has no zero bytes)
 		if salt%3 == 0 {
